@@ -148,7 +148,7 @@ def cases(tier, seed):
         if rng.random() < 0.2:
             a = rng.choice(A)
             A.append([a[1], a[0], list(reversed(a[2]))])  # swapped duplicate
-        out.append({"kind": "clo", "n": n, "A": A, "qseed": rng.randint(0, 10**9), "rand": True})
+        out.append({"kind": "clo", "n": n, "A": A, "qseed": rng.randint(0, 10**9), "rand": True, "disjoint": n <= 4})
     # ---- (b) is_iequivalent
     for n in (1, 2, 3):
         dags = common.all_dags(n)
@@ -175,7 +175,7 @@ def cases(tier, seed):
             out.append({"kind": "ieqc", "n": n, "shape": shape_, "qseed": rng.randint(0, 10**9)})
     # ---- (a') six variables: multi-step derivations from small premises, one premise disjoint from the query
     for i in range(10 if tier == "quick" else 150):
-        out.append({"kind": "clo6", "qseed": rng.randint(0, 10**9)})
+        out.append({"kind": "clo6", "pattern": i % 2, "qseed": rng.randint(0, 10**9)})
     # ---- (c'') a variable with more than 256 states
     for i in range(3 if tier == "quick" else 30):
         out.append({"kind": "j257", "qseed": rng.randint(0, 10**9)})
@@ -374,6 +374,28 @@ def run_clo(case, drv):
             B.append(rng.choice(pool))
         else:
             B.append(rand_assertion(rng, n))
+    # queries that need a premise sharing no variable with them: every closure member t that is lost when the premises
+    # variable-disjoint from t are dropped (plus the case's explicit queries)
+    queries = [[b] for b in case.get("B", [])]
+    if case.get("disjoint"):
+        cand = []
+        for t in pool:
+            tv = set(t[0]) | set(t[1]) | set(t[2])
+            Ar = [a for a in A if tv & (set(a[0]) | set(a[1]) | set(a[2]))]
+            if len(Ar) < len(A) and canon_a(*t) in coded and canon_a(*t) not in canon_m(drv.call("c18_closure", [Ar])[0]):
+                cand.append(t)
+        rng.shuffle(cand)
+        queries += [[t] for t in cand[:3]]
+        tags.append("entails query needs a variable-disjoint premise: %d" % min(len(cand), 3))
+    for Bq in queries:
+        eq_, _, _, _ = drv.call("c18_entails", [A, Bq])
+        _, _, qq_, _ = drv.call("c18_entails", [A, A + Bq])
+        inclo = all(canon_a(*t) in got for t in Bq)
+        ie_ = ind.entails(Independencies(*[mk(b) for b in Bq]))
+        iq_ = ind.is_equivalent(Independencies(*[mk(b) for b in A + Bq]))
+        if ie_ is not bool(eq_) or iq_ is not bool(qq_) or ie_ is not inclo:
+            return bad("impl!=model:entails-disjoint-premise", {"A": A, "B": Bq, "impl": [ie_, iq_], "model": [eq_, qq_],
+                                                               "in_closure()": inclo}, key=key)
     indB = Independencies(*[mk(b) for b in B])
     e, ef, q, qf = drv.call("c18_entails", [A, B])
     ie = ind.entails(indB)
@@ -1753,19 +1775,29 @@ def run_ieqc(case, drv):
 
 
 def run_clo6(case, drv):
-    """six variables, premises with single-variable events: a chain of contractions / weak unions reaches a statement
-    whose variables are disjoint from one of the premises it needs; compared like every closure case"""
+    """six variables, premises with small events.  Even cases: the two-contraction pattern  a_|_b|c, a_|_w|b,c,
+    w_|_v|a,c, w_|_c|d, w_|_d|v,c  (relabelled; derives w_|_v|d, which shares no variable with the first premise it
+    needs), optionally with one more premise; odd cases: a chain of contractions plus an unrelated premise.  run_clo
+    then asks entails / is_equivalent for every closure member that needs a variable-disjoint premise."""
     rng = random.Random(case["qseed"])
     v = list(range(6))
     rng.shuffle(v)
     a, b, c, d, e, f = v
-    # a _|_ b ; a _|_ c | b ; a _|_ d | b,c   =>  a _|_ b,c,d  (repaired rule) ; plus an unrelated premise e _|_ f
-    A = [[[a], [b], []], [[a], [c], [b]], [[a], [d], sorted([b, c])], [[e], [f], []]]
-    if rng.random() < 0.5:
-        A.append([[a], [e], sorted([b, c, d])])
+    if case.get("pattern", case["qseed"] % 2) == 0:
+        w_, v_ = e, f
+        A = [[[a], [b], [c]], [[a], [w_], sorted([b, c])], [[w_], [v_], sorted([a, c])], [[w_], [c], [d]],
+             [[w_], [d], sorted([v_, c])]]
+        if rng.random() < 0.4:
+            A.append(rand_assertion(rng, 6))
+        A = [[p[1], p[0], p[2]] if rng.random() < 0.5 else p for p in A]
+    else:
+        A = [[[a], [b], []], [[a], [c], [b]], [[a], [d], sorted([b, c])], [[e], [f], []]]
+        if rng.random() < 0.5:
+            A.append([[a], [e], sorted([b, c, d])])
+        rng.shuffle(A)
+        A = A[: rng.randint(3, len(A))]
     rng.shuffle(A)
-    A = A[: rng.randint(3, len(A))]
-    return run_clo({"kind": "clo", "n": 6, "A": A, "qseed": case["qseed"]}, drv)
+    return run_clo({"kind": "clo", "n": 6, "A": A, "qseed": case["qseed"], "disjoint": True}, drv)
 
 
 def run_j257(case, drv):
